@@ -15,6 +15,8 @@ PostDisconnect bookkeeping sees a disconnect without a completed accept (that is
 finding, not a violation of C16).
 -/
 import Teleport.Lemmas.Auth
+import Teleport.Lemmas.SrcFlow
+import Teleport.Gen.Transitions
 namespace Teleport
 namespace C16
 open Auth
@@ -220,6 +222,103 @@ theorem C16_bearer_ok_only_on_auth_reply (called : Bool) (wcode : Int) (r : BRec
 
 example : (sendOnce false 0 (.frame { kind := .authReply })).2 = 0 := by decide
 example : (sendOnce true 0 (.frame { kind := .authReply })).2 = 104 := by decide
+
+/-! ## tie A — the accept paths as they are in the source NOW (`Gen/Transitions`)
+
+`Model/Auth` orders the three effects that make a connection live — status Ok, reader started,
+session in the hub — after the verdict of the accept hooks (`Ev.branch`), differently for `ServeConn`
+and for the accept goroutine of `serveListener`. `srcfacts` regenerates the ordered flows of both;
+the theorem compares them with the order in which `Auth.step` produces the effects. -/
+
+section TieA
+open SrcFlow
+
+/-- the effects of one model step of the accepting goroutine, as source statements. -/
+def accDelta (s t : St) : List String :=
+  (if s.status != .ok && t.status == .ok then ["cas:statusOk<-statusPreparing"] else []) ++
+  (if s.rd.isNone && t.rd.isSome then ["reader"] else []) ++
+  (if !s.inHub && t.inHub then ["call:sessHub.set"] else [])
+
+def accTrace : Nat → St → List String
+  | 0, _ => []
+  | n + 1, s =>
+    match step s .accStep with
+    | some t => accDelta s t ++ accTrace n t
+    | none => []
+
+/-- the model's order of the three effects after the hooks returned OK. -/
+def modelAccept (lis : Bool) : List String :=
+  let s0 : St := { init lis true with acc := .decided 0 }
+  match step s0 .branch with
+  | some s1 => accDelta s0 s1 ++ accTrace 6 s1
+  | none => ["?"]
+
+/-- the model after the hooks returned status 7: `Close()` runs to its end, the goroutine returns. -/
+def modelReject (lis : Bool) : Option St :=
+  let s0 : St := { init lis true with acc := .decided 7 }
+  (step s0 .branch).bind fun s1 => (List.replicate 6 Auth.Ev.closeStep).foldlM step s1 |>.bind (step · .accStep)
+
+def acceptKey (e : SrcFlow.Ev) : Option String :=
+  if e.is "cas" "statusOk<-statusPreparing" then some "cas:statusOk<-statusPreparing"
+  else if e.is "spawn" "startReadAndHandle" || e.is "run" "startReadAndHandle" then some "reader"
+  else if e.is "call" "sessHub.set" then some "call:sessHub.set"
+  else none
+
+def isPostAccept (e : SrcFlow.Ev) : Bool := e.is "stage" "postAccept"
+def isCasOk (e : SrcFlow.Ev) : Bool := e.is "cas" "statusOk<-statusPreparing"
+
+/-- the three effects in the statements that follow / precede the `postAccept` call. -/
+def effectsAfter (f : List SrcFlow.Ev) : Option (List String) := (after isPostAccept (mainFlow f)).map (·.filterMap acceptKey)
+def effectsBefore (f : List SrcFlow.Ev) : Option (List String) := (upto isPostAccept (mainFlow f)).map (·.filterMap acceptKey)
+/-- the first `n` statements after the first one that satisfies `p`, with their enclosing conditions. -/
+def nextAfter (p : SrcFlow.Ev → Bool) (n : Nat) (f : List SrcFlow.Ev) : Option (List (String × List String)) :=
+  (after p (mainFlow f)).map fun l => (l.take n).map fun e => (e.key, e.guards)
+
+/-- one `postAccept` call on the global container, tested at once; its failing branch is
+    `sess.Close()` then `return`; no other stage call; the step to Ok is one unconditional
+    compare-and-swap whose failing branch leaves the function. -/
+def acceptShape (f : List SrcFlow.Ev) : Bool :=
+  (f.filter isPostAccept).map (fun e => (e.x, e.use, e.guards)) == [("global", "fail-return", [])] &&
+  (f.filter fun e => e.kind == "stage").length == 1 &&
+  nextAfter isPostAccept 2 f == some [("call:sess.Close", ["!postAccept().OK()"]), ("return:", ["!postAccept().OK()"])] &&
+  (f.filter isCasOk).map (fun e => (e.use, e.guards)) == [("fail-return", [])]
+
+/-- **The accept hooks come first on both accept paths; a refusal closes the session and returns
+    (tie A).** In `ServeConn` and in the accept goroutine of `serveListener` as they are now:
+    `postAccept` is called exactly once, on the peer's global container, and its verdict is tested
+    at once; the failing branch is `sess.Close()` followed by `return` — nothing else; nothing that
+    makes the connection live (status Ok, reader start, `sessHub.set`) precedes the call; after it
+    they come in the order in which `Auth.step` produces them — `ServeConn`: compare-and-swap
+    Preparing → Ok, reader spawned, hub; listener: hub, compare-and-swap, reader run in place — and
+    the step to Ok is the compare-and-swap whose failing branch returns (listener: after taking the
+    session out of the hub again). In the model a refused connection gets none of the three
+    effects: its `Close()` runs to the end and the goroutine returns. Starting the reader, entering
+    the hub or setting Ok before the hooks, or continuing after a refusal, changes the regenerated
+    flow and this theorem no longer checks. -/
+theorem C16_accept_order :
+    Gen.transitions_missing = [] ∧
+    effectsAfter Gen.flow_peer_ServeConn = some (modelAccept false) ∧
+    effectsAfter Gen.flow_peer_serveListener_accept = some (modelAccept true) ∧
+    (modelAccept false).length = 3 ∧ (modelAccept true).length = 3 ∧
+    effectsBefore Gen.flow_peer_ServeConn = some [] ∧
+    effectsBefore Gen.flow_peer_serveListener_accept = some [] ∧
+    acceptShape Gen.flow_peer_ServeConn = true ∧ acceptShape Gen.flow_peer_serveListener_accept = true ∧
+    nextAfter isCasOk 1 Gen.flow_peer_ServeConn = some [("return:", ["!sess.tryChangeStatus(statusOk,statusPreparing)"])] ∧
+    nextAfter isCasOk 2 Gen.flow_peer_serveListener_accept =
+      some [("call:sessHub.delete", ["!sess.tryChangeStatus(statusOk,statusPreparing)"]),
+            ("return:", ["!sess.tryChangeStatus(statusOk,statusPreparing)"])] ∧
+    ((mainFlow Gen.flow_peer_ServeConn).any fun e => e.is "spawn" "startReadAndHandle") = true ∧
+    ((mainFlow Gen.flow_peer_serveListener_accept).any fun e => e.is "run" "startReadAndHandle") = true ∧
+    [false, true].all (fun lis => match modelReject lis with
+      | some s => s.acc == .done 7 && s.status == .activeClosed && s.rd.isNone && !s.inHub && s.sockClosed && !s.authPassed
+      | none => false) = true := by
+  decide
+
+/-- non-vacuity: the model's two orders, spelled out. -/
+example : modelAccept false = ["cas:statusOk<-statusPreparing", "reader", "call:sessHub.set"] := by decide
+example : modelAccept true = ["call:sessHub.set", "cas:statusOk<-statusPreparing", "reader"] := by decide
+
+end TieA
 
 end C16
 end Teleport
